@@ -370,9 +370,9 @@ func (b *ByteBuffer) Claim(fn func(b []byte) int) {
 // Callers do not have the option to write less than they claim. The write area
 // will grow by `n`.
 func (b *ByteBuffer) ClaimFixed(n int) (claimed []byte) {
-	if wi := b.wi + n; n >= 0 && wi <= cap(b.data) {
-		claimed = b.data[b.wi:wi]
-		b.wi = wi
+	if n >= 0 && n <= cap(b.data)-b.wi {
+		claimed = b.data[b.wi : b.wi+n]
+		b.wi += n
 		b.data = b.data[:b.wi]
 	}
 	return
